@@ -336,3 +336,22 @@ func Hex(b []byte) string {
 	}
 	return sb.String()
 }
+
+// IsKnown reports whether id is listed as an open known finding for the
+// property being checked (the driver passes the ids from KNOWN_FINDINGS.txt).
+func IsKnown(id string) bool {
+	for _, k := range strings.Split(os.Getenv("VERIF_KNOWN"), ",") {
+		if k == id && id != "" {
+			return true
+		}
+	}
+	return false
+}
+
+// Tier returns "quick" or "thorough" (default quick).
+func Tier() string {
+	if os.Getenv("VERIF_TIER") == "thorough" {
+		return "thorough"
+	}
+	return "quick"
+}
